@@ -19,49 +19,7 @@ def run(ctx):
     from . import shared_mir as _sm13
     _sm13.clause_rewrite_str_plumbing(r, mir)
 
-    # ------------------------------------------------------------------ R13.2
-    r = ctx.rule("R13.2", "at most one switch, only for tokens after the meta tag, sink notified first: the shared encoding is a write-once cell set only by the charset handler; flush_encoding_change runs only right after the token that may have changed it was produced and committed", "E-MIR", floor=4)
-    se = [s for s in mir.fns if False]
-    # SharedEncoding = Arc<OnceLock<AsciiCompatibleEncoding>>: type fact from the Dispatcher field
-    d = mir.adt("Dispatcher")
-    ty = [f["ty"] for f in d["variants"][0]["fields"] if f["name"] == "next_encoding"]
-    r.inst("SharedEncoding|type", sample={"type": ty})
-    if not ty or not re.search(r"Arc<std::sync::OnceLock<.*AsciiCompatibleEncoding>>", ty[0]):
-        r.violate("SharedEncoding|type", f"Dispatcher.next_encoding is {ty}; it must be a write-once cell (Arc<OnceLock<AsciiCompatibleEncoding>>) so the encoding can change at most once", None)
-    setters = sorted(set(f.key for f, bi, t in mir.callers_of(r"OnceLock.*::set$") if not mir.is_test_fn(f) and "AsciiCompatibleEncoding" in (t["atys"][0] if t["atys"] else "")))
-    r.inst("OnceLock::set|callers", sample={"callers": setters})
-    if not setters or not all(s.startswith("rewriter::handler_adjust_charset_on_meta_tag") for s in setters):
-        r.violate("OnceLock::set|callers", f"the shared encoding is set from {setters}; only the <meta charset> handler may request a switch", None)
-    tp = mir.fn("Dispatcher::try_produce_token_from_lexeme")
-    fe = [bi for bi, t in tp.calls(r"Dispatcher::flush_encoding_change$")]
-    tok = [bi for bi, t in tp.calls(r"DispatcherDelegate::token_produced$")]
-    con = [bi for bi, t in tp.calls(r"DispatcherDelegate::consume_lexeme$")]
-    r.inst("flush_encoding_change|placement", sample={"calls": len(fe)})
-    if len(fe) != 1 or len(tok) != 1:
-        r.violate("flush_encoding_change|placement", "try_produce_token_from_lexeme: expected exactly one flush_encoding_change and one token_produced", tp.loc())
-    else:
-        if not tp.dominates(tok[0], fe[0]) or not any(tp.dominates(c, fe[0]) for c in con):
-            r.violate("flush_encoding_change|placement", "the encoding switch is not applied right after the (meta) token was produced and committed: bytes after the meta tag can reach the sink before set_encoding, and end-of-document content would use the old encoding", tp.loc())
-    if len(fe) == 1:
-        fg = [tp.deep(tp.blocks[sb]["term"]["d"]) for sb in guarding_branches(tp, fe[0])]
-        extra = [g for g in fg if not (g.startswith("discr(ToToken::to_token(") or g.startswith("discr(Result::branch[Try](DispatcherDelegate::token_produced("))]
-        r.inst("flush_encoding_change|unconditional-after-commit", sample={"guards": [g[:50] for g in fg]})
-        if extra:
-            r.violate("flush_encoding_change|unconditional-after-commit", f"the pending encoding switch is applied only under an extra condition ({[g[:70] for g in extra]}): when the <meta> start tag is the only captured token (e.g. only a selector-scoped text handler is registered) the switch is never applied and the following text is decoded in the old encoding", tp.loc())
-    callers = sorted(set(f.key for f, bi, t in mir.callers_of(r"Dispatcher::flush_encoding_change$") if not mir.is_test_fn(f)))
-    r.inst("flush_encoding_change|callers", sample={"callers": callers})
-    if callers != ["Dispatcher::try_produce_token_from_lexeme"]:
-        r.violate("flush_encoding_change|callers", f"flush_encoding_change is called from {callers}", None)
-    fec = mir.fn("Dispatcher::flush_encoding_change")
-    order = [(bi, callee_key(t)) for bi, t in fec.calls(r"set_encoding$")]
-    r.inst("flush_encoding_change|decoder", sample={"set_encoding_calls": [c for _, c in order]})
-    sg = [fec.deep(fec.blocks[sb]["term"]["d"]) for bi_, c_ in order if "OutputSink::set_encoding" in c_ for sb in guarding_branches(fec, bi_)]
-    dg = [fec.deep(fec.blocks[sb]["term"]["d"]) for bi_, c_ in order if "TextDecoder::set_encoding" in c_ for sb in guarding_branches(fec, bi_)]
-    r.inst("flush_encoding_change|sink-told-whenever-decoder-switches", sample={"sink_guards": [g[:50] for g in sg], "decoder_guards": [g[:50] for g in dg]})
-    if sorted(sg) != sorted(dg):
-        r.violate("flush_encoding_change|sink-told-whenever-decoder-switches", f"the sink's set_encoding is called under different conditions ({[g[:60] for g in sg]}) than the decoder's switch ({[g[:60] for g in dg]}): e.g. with emission disabled (a <meta charset> inside removed content) the following bytes are produced in the new encoding without the sink ever being told", fec.loc())
-    if not any("TextDecoder::set_encoding" in c for _, c in order) or not any("OutputSink::set_encoding" in c for _, c in order):
-        r.violate("flush_encoding_change|decoder", "flush_encoding_change must switch the text decoder and notify the sink", fec.loc())
+    rule_encoding_switch(ctx, mir)
 
     # ------------------------------------------------------------------ R13.3
     r = ctx.rule("R13.3", "inserted content is transcoded: a &str's bytes reach an output handler only for UTF-8 output, through TextEncoder::encode, or through BytesCow::owned_from_str*(.., token encoding)", "E-MIR", floor=3)
@@ -352,3 +310,48 @@ def rule_sink_bytes_provenance(ctx, mir, rid="R13.9"):
                     r.violate(key + "|consumer", f"{f.key} forwards chunks to the sink but its parent {parent_key} hands it to no encoder entry point", f.loc())
     r.count("handle_chunk_calls", n)
 
+
+def rule_encoding_switch(ctx, mir, rid="R13.2"):
+    # ------------------------------------------------------------------ R13.2
+    r = ctx.rule(rid, "at most one switch, only for tokens after the meta tag, sink notified first: the shared encoding is a write-once cell set only by the charset handler; flush_encoding_change runs only right after the token that may have changed it was produced and committed", "E-MIR", floor=4)
+    se = [s for s in mir.fns if False]
+    # SharedEncoding = Arc<OnceLock<AsciiCompatibleEncoding>>: type fact from the Dispatcher field
+    d = mir.adt("Dispatcher")
+    ty = [f["ty"] for f in d["variants"][0]["fields"] if f["name"] == "next_encoding"]
+    r.inst("SharedEncoding|type", sample={"type": ty})
+    if not ty or not re.search(r"Arc<std::sync::OnceLock<.*AsciiCompatibleEncoding>>", ty[0]):
+        r.violate("SharedEncoding|type", f"Dispatcher.next_encoding is {ty}; it must be a write-once cell (Arc<OnceLock<AsciiCompatibleEncoding>>) so the encoding can change at most once", None)
+    setters = sorted(set(f.key for f, bi, t in mir.callers_of(r"OnceLock.*::set$") if not mir.is_test_fn(f) and "AsciiCompatibleEncoding" in (t["atys"][0] if t["atys"] else "")))
+    r.inst("OnceLock::set|callers", sample={"callers": setters})
+    if not setters or not all(s.startswith("rewriter::handler_adjust_charset_on_meta_tag") for s in setters):
+        r.violate("OnceLock::set|callers", f"the shared encoding is set from {setters}; only the <meta charset> handler may request a switch", None)
+    tp = mir.fn("Dispatcher::try_produce_token_from_lexeme")
+    fe = [bi for bi, t in tp.calls(r"Dispatcher::flush_encoding_change$")]
+    tok = [bi for bi, t in tp.calls(r"DispatcherDelegate::token_produced$")]
+    con = [bi for bi, t in tp.calls(r"DispatcherDelegate::consume_lexeme$")]
+    r.inst("flush_encoding_change|placement", sample={"calls": len(fe)})
+    if len(fe) != 1 or len(tok) != 1:
+        r.violate("flush_encoding_change|placement", "try_produce_token_from_lexeme: expected exactly one flush_encoding_change and one token_produced", tp.loc())
+    else:
+        if not tp.dominates(tok[0], fe[0]) or not any(tp.dominates(c, fe[0]) for c in con):
+            r.violate("flush_encoding_change|placement", "the encoding switch is not applied right after the (meta) token was produced and committed: bytes after the meta tag can reach the sink before set_encoding, and end-of-document content would use the old encoding", tp.loc())
+    if len(fe) == 1:
+        fg = [tp.deep(tp.blocks[sb]["term"]["d"]) for sb in guarding_branches(tp, fe[0])]
+        extra = [g for g in fg if not (g.startswith("discr(ToToken::to_token(") or g.startswith("discr(Result::branch[Try](DispatcherDelegate::token_produced("))]
+        r.inst("flush_encoding_change|unconditional-after-commit", sample={"guards": [g[:50] for g in fg]})
+        if extra:
+            r.violate("flush_encoding_change|unconditional-after-commit", f"the pending encoding switch is applied only under an extra condition ({[g[:70] for g in extra]}): when the <meta> start tag is the only captured token (e.g. only a selector-scoped text handler is registered) the switch is never applied and the following text is decoded in the old encoding", tp.loc())
+    callers = sorted(set(f.key for f, bi, t in mir.callers_of(r"Dispatcher::flush_encoding_change$") if not mir.is_test_fn(f)))
+    r.inst("flush_encoding_change|callers", sample={"callers": callers})
+    if callers != ["Dispatcher::try_produce_token_from_lexeme"]:
+        r.violate("flush_encoding_change|callers", f"flush_encoding_change is called from {callers}", None)
+    fec = mir.fn("Dispatcher::flush_encoding_change")
+    order = [(bi, callee_key(t)) for bi, t in fec.calls(r"set_encoding$")]
+    r.inst("flush_encoding_change|decoder", sample={"set_encoding_calls": [c for _, c in order]})
+    sg = [fec.deep(fec.blocks[sb]["term"]["d"]) for bi_, c_ in order if "OutputSink::set_encoding" in c_ for sb in guarding_branches(fec, bi_)]
+    dg = [fec.deep(fec.blocks[sb]["term"]["d"]) for bi_, c_ in order if "TextDecoder::set_encoding" in c_ for sb in guarding_branches(fec, bi_)]
+    r.inst("flush_encoding_change|sink-told-whenever-decoder-switches", sample={"sink_guards": [g[:50] for g in sg], "decoder_guards": [g[:50] for g in dg]})
+    if sorted(sg) != sorted(dg):
+        r.violate("flush_encoding_change|sink-told-whenever-decoder-switches", f"the sink's set_encoding is called under different conditions ({[g[:60] for g in sg]}) than the decoder's switch ({[g[:60] for g in dg]}): e.g. with emission disabled (a <meta charset> inside removed content) the following bytes are produced in the new encoding without the sink ever being told", fec.loc())
+    if not any("TextDecoder::set_encoding" in c for _, c in order) or not any("OutputSink::set_encoding" in c for _, c in order):
+        r.violate("flush_encoding_change|decoder", "flush_encoding_change must switch the text decoder and notify the sink", fec.loc())
